@@ -38,6 +38,7 @@ def nodes_of(root):
 def info(n):
     i = dict(n.ayns.node_info)
     i.pop('idx', None)
+    i['metadata'] = repr(sorted(i['metadata'].items(), key=str))     # a value snapshot, not a reference to the live dict
     extra = (getattr(n, '_func', None), getattr(n, 'ref_point', None), getattr(n, 'filenames', None), getattr(n, 'persistent_namespace', None))
     val = None
     if not isinstance(n, ComposedNode):
